@@ -323,7 +323,7 @@ pub fn enumerated(thorough: bool, rng: &mut Rng) -> Vec<(&'static str, Blk)> {
     }
     for q in 0..16 {
         for neg in negative_pool() {
-            // q == pow with the literal on the left is finding F23 (classified by the runner)
+            // q == pow with the literal on the left was finding F23 (fixed)
             out.push(("negative-literal", ret(vec![bin(q, Ex::Num(neg.clone()), b.clone())])));
             out.push(("negative-literal", ret(vec![bin(q, a.clone(), Ex::Num(neg.clone()))])));
             out.push(("negative-literal", ret(vec![bin(q, Ex::Num(neg.clone()), Ex::Num(neg))])));
@@ -513,7 +513,7 @@ pub struct Gen {
     pub rng: Rng,
     strings: Vec<Vec<u8>>,
     numbers: Vec<Num>,
-    /// allow negative number literals (kept out of `^`-left and cast positions: finding F23)
+    /// allow negative number literals
     pub negatives: bool,
     pub casts: bool,
     in_loop: bool,
@@ -626,11 +626,8 @@ impl Gen {
             0..=2 => self.leaf(),
             3..=8 => {
                 let op = self.rng.below(16);
-                let mut l = self.expr(d1);
+                let l = self.expr(d1);
                 let r = self.expr(d1);
-                if op == POW && matches!(&l, Ex::Num(n) if n.is_negative()) {
-                    l = paren(l);
-                }
                 bin(op, l, r)
             }
             9 | 10 => un(self.rng.below(3), self.expr(d1)),
@@ -651,10 +648,7 @@ impl Gen {
             }
             _ => {
                 if self.casts {
-                    let mut inner = self.expr(d1);
-                    if matches!(&inner, Ex::Num(n) if n.is_negative()) {
-                        inner = paren(inner);
-                    }
+                    let inner = self.expr(d1);
                     let ty = if self.rng.chance(1, 2) {
                         tname(*self.rng.pick(&["T", "number", "Foo"]))
                     } else {
